@@ -26,6 +26,13 @@ def _child_main(wfd, prop_mod, scenario, seam_override=None):
     seams = None
     try:
         import faulthandler
+        import logging
+        logging.disable(logging.CRITICAL)
+        if os.environ.get("VERIF_DEBUG") != "1":
+            # blimpy and tqdm chatter on stdout/stderr; the child's verdict travels over the pipe
+            dn = os.open(os.devnull, os.O_WRONLY)
+            os.dup2(dn, 1)
+            os.dup2(dn, 2)
         faulthandler.enable()
         from .seams import Seams
         ctx = core.Ctx(prop_mod.ID, scenario)
